@@ -127,6 +127,13 @@ def cond_single_return(a):
     return b
 
 
+def mod_common_factor(a):
+    return (-a) % (2 * a)
+
+
+# witnesses of recorded (unrepaired) findings: id -> (function, model_args)
+KNOWN = {"sympy-mod-common-factor": ("mod_common_factor", None)}
+
 WITNESSES = [
     ("swap", ["b", "a"]),
     ("swap", ["a", "b"]),
